@@ -296,6 +296,12 @@ class FortranAST:
                             child.update_fqsn(parent_scope.FQSN)
                     include_ast.none_scope = parent_scope
                     inc.scope_objs = added_entities
+                elif added_entities:
+                    # The included file does not declare anything any more
+                    for obj in added_entities:
+                        if parent_scope is not None and obj in parent_scope.children:
+                            parent_scope.children.remove(obj)
+                    inc.scope_objs = []
             elif inc.file is not None:
                 # The included file is gone: forget it and what it added to this scope
                 inc.file = None
